@@ -108,6 +108,7 @@ Section Generic.
 Variable D : rcfg -> crl * option N -> Prop.
 Hypothesis D_accepts : forall cfg p a avail f l sg, accepts cfg p a avail f = Some (l, sg) -> D cfg (l, sg).
 Hypothesis D_adopt : forall cfg l sg chain, D cfg (l, sg) -> adopt_counts cfg sg chain = true -> list_ok cfg l.
+Hypothesis D_resign : forall cfg l sg, r_sigmode cfg = SigVerify -> list_ok cfg l -> D cfg (l, Some sg).
 
 Definition InvG (cfg : rcfg) (st : rstate) : Prop :=
   Forall (fun p => entry_ok cfg (snd p)) (entries st) /\
@@ -224,6 +225,19 @@ Proof.
   apply loaded_state_inv, added_state_inv, H.
 Qed.
 
+Lemma resigned_state_inv cfg st id c : InvG cfg st -> InvG cfg (resigned_state cfg st id c).
+Proof.
+  intros H. unfold resigned_state.
+  destruct (lookup id (marks st)) as [l|]; [|exact H].
+  destruct (lookup id (entries st)) as [e|] eqn:El; [|exact H].
+  destruct (r_sigmode cfg) eqn:Em; cbn [andb]; try exact H.
+  destruct (e_loaded e && verified l (c_chain c)); [|exact H].
+  pose proof (inv_lookup _ _ _ _ H El) as [Hiff Hok]. destruct H as [He Hd]. split; cbn [entries disk].
+  - apply update_forall; [exact He|]. intros k _. cbn [snd]. split; cbn [e_loaded e_list]; assumption.
+  - destruct (e_list e) as [l0|] eqn:Eli; [|exact Hd].
+    apply persist_ok; [exact Hd|]. intros l1 sg [= <- <-]. apply D_resign; [exact Em|]. apply Hok. reflexivity.
+Qed.
+
 Lemma handshake_inv cfg ev st c : InvG cfg st -> InvG cfg (fst (handshake cfg ev st c)).
 Proof.
   intros H. unfold handshake.
@@ -232,8 +246,11 @@ Proof.
   cbn [fst].
   assert (H2 : InvG cfg (loaded_state cfg ev (added_state cfg st (h :: hs) c) (h :: hs) c))
     by (apply loaded_state_inv, added_state_inv, H).
-  destruct (r_fetch cfg); [exact H2|].
-  destruct (lookup (h :: hs) (entries st)); [exact H2|apply refresh_all_inv; exact H2].
+  assert (H3 : InvG cfg (resigned_state cfg (loaded_state cfg ev (added_state cfg st (h :: hs) c) (h :: hs) c) (h :: hs) c))
+    by (apply resigned_state_inv; exact H2).
+  destruct (r_fetch cfg).
+  - destruct (lookup (h :: hs) (entries st)); [exact H3|exact H2].
+  - destruct (lookup (h :: hs) (entries st)); [exact H3|apply refresh_all_inv; exact H2].
 Qed.
 
 Lemma restart_inv cfg cfg' st : Forall (fun p => D cfg' (snd p)) (disk st) -> InvG cfg' (restart cfg st).
@@ -264,6 +281,9 @@ Proof. intros H. apply accepts_ok in H. unfold D_cfg. simpl. tauto. Qed.
 Lemma D_cfg_adopt cfg l sg (chain : list N) : D_cfg cfg (l, sg) -> adopt_counts cfg sg chain = true -> list_ok cfg l.
 Proof. intros H _. exact H. Qed.
 
+Lemma D_cfg_resign cfg l (sg : N) : r_sigmode cfg = SigVerify -> list_ok cfg l -> D_cfg cfg (l, Some sg).
+Proof. intros _ H. exact H. Qed.
+
 Definition Inv (cfg : rcfg) (st : rstate) : Prop := InvG D_cfg cfg st.
 
 Lemma init_inv cfg : Inv cfg (snd init_state).
@@ -271,7 +291,7 @@ Proof. split; constructor. Qed.
 
 (* every reachable state satisfies the invariant *)
 Theorem reachable_inv cfg xs : Inv cfg (snd (fst (run_steps cfg init_state xs))).
-Proof. apply (run_inv D_cfg D_cfg_accepts D_cfg_adopt), init_inv. Qed.
+Proof. apply (run_inv D_cfg D_cfg_accepts D_cfg_adopt D_cfg_resign), init_inv. Qed.
 
 (* ---- instance 2: the configuration may change with every restart — the disk holds what SOME configuration
    wrote; the adoption check of the current one decides what counts *)
@@ -285,6 +305,9 @@ Proof.
   unfold adopt_counts in Ha. rewrite adoption_checked, Hm in Ha.
   destruct sg as [s|]; [apply Hs; discriminate|discriminate].
 Qed.
+
+Lemma D_any_resign cfg l (sg : N) : r_sigmode cfg = SigVerify -> list_ok cfg l -> D_any cfg (l, Some sg).
+Proof. intros Hm [Hp Hs]. split; simpl; [exact Hp|intros _; apply Hs; exact Hm]. Qed.
 
 Definition InvW (cfg : rcfg) (st : rstate) : Prop := InvG D_any cfg st.
 
@@ -300,7 +323,7 @@ Lemma segments_disk segs : forall s, Forall (fun p => disk_wf (snd p)) (disk (sn
 Proof.
   induction segs as [|[cfg xs] segs IH]; intros s H; simpl; [exact H|].
   apply IH.
-  pose proof (run_inv D_any D_any_accepts D_any_adopt cfg xs (fst s, restart cfg (snd s))) as Hr.
+  pose proof (run_inv D_any D_any_accepts D_any_adopt D_any_resign cfg xs (fst s, restart cfg (snd s))) as Hr.
   simpl in Hr. destruct Hr as [_ Hd]; [apply (restart_inv D_any cfg cfg); exact H|exact Hd].
 Qed.
 
@@ -308,6 +331,6 @@ Theorem reachable_segments_inv segs cfg xs :
   let s := run_segments segs init_state in
   InvW cfg (snd (fst (run_steps cfg (fst s, restart cfg (snd s)) xs))).
 Proof.
-  intros s. apply (run_inv D_any D_any_accepts D_any_adopt cfg xs (fst s, restart cfg (snd s))).
+  intros s. apply (run_inv D_any D_any_accepts D_any_adopt D_any_resign cfg xs (fst s, restart cfg (snd s))).
   simpl. apply (restart_inv D_any cfg cfg). apply segments_disk. simpl. constructor.
 Qed.
